@@ -6,3 +6,17 @@ for p in $(python3 -c "import json;print(' '.join(c['property_id'] for c in json
   echo "$p exit=$rc $(echo "$out" | grep -c '^VIOLATION') violation(s) $(echo "$out" | grep -c '^BROKEN') broken"
   echo "$out" | grep "^finding:\|^BROKEN" | cut -c1-260 | head -6
 done
+# stale allowances (an allow-list entry larger than what the tree uses) are spare capacity a new site could hide in: trim them
+python3 - <<'PY'
+import json, glob
+def find(o, out):
+    if isinstance(o, dict):
+        for v in o.values(): find(v, out)
+    elif isinstance(o, list):
+        for v in o: find(v, out)
+    elif isinstance(o, str) and "allows" in o and "tree has" in o: out.add(o[:220])
+out = set()
+for p in glob.glob('/verif/evidence/C*.json'):
+    find(json.load(open(p)), out)
+for o in sorted(out): print("STALE-ALLOWANCE:", o)
+PY
